@@ -23,6 +23,9 @@ pub struct Entry {
     pub name: &'static str,
     pub nargs: usize,
     pub arg_sizes: &'static [usize],
+    /// (static byte offset, size, raw values on a branch of a version / flag condition) — from the DSL
+    pub hints: &'static [(usize, usize, &'static [u64])],
+    pub arg_hints: &'static [(usize, &'static [u64])],
     pub read: fn(&[u8], &[u64]) -> String,
     pub getters: fn(&[u8], &[u64]),
 }
@@ -179,6 +182,26 @@ pub fn run(cfg: &Config, s: &mut Session) {
                 // all-zero header: every count 0, every condition false
                 for b in buf.iter_mut().take(24) {
                     *b = 0;
+                }
+            }
+            // version / flag fields that switch conditional fields: values on either side of each condition
+            let mut args = args;
+            if trial % 4 != 0 {
+                for (off, size, vals) in e.hints {
+                    if buf.len() < off + size && rng.chance(4, 5) {
+                        while buf.len() < off + size {
+                            buf.push(biased_byte(&mut rng));
+                        }
+                    }
+                    if buf.len() >= off + size {
+                        let v = *rng.pick(vals);
+                        let be = v.to_be_bytes();
+                        buf[*off..off + size].copy_from_slice(&be[8 - size..]);
+                        s.count("shapes.hinted-condition-value");
+                    }
+                }
+                for (ai, vals) in e.arg_hints {
+                    args[*ai] = *rng.pick(vals);
                 }
             }
             let mut obs = one_case(s, e, &buf, &args, &mut st, &mut seen, &mut purity);
